@@ -547,7 +547,21 @@ def split_context(n):
     at the very end.  Returns (left Context|None, body AST, right Context|None)."""
     items = top_items(n)
     left = right = None
-    if items:
+
+    def _neg_single(c):
+        """(?<!S) / (?!S) with one character set S: 'the neighbour is the boundary or a character outside S'."""
+        return c[0] == "look" and c[2] and strip_groups(c[3])[0] == "set"
+    if items and _neg_single(strip_groups(items[0])) and strip_groups(items[0])[1] == "behind":
+        left = Context()
+        left.bol = True
+        left.chars = strip_groups(strip_groups(items[0])[3])[1].complement()
+        items = items[1:]
+    if items and _neg_single(strip_groups(items[-1])) and strip_groups(items[-1])[1] == "ahead":
+        right = Context()
+        right.bol = True
+        right.chars = strip_groups(strip_groups(items[-1])[3])[1].complement()
+        items = items[:-1]
+    if items and left is None:
         first = strip_groups(items[0])
         cands = first[1] if first[0] == "alt" else (first,)
         if all((c[0] == "look" and c[1] == "behind" and not c[2]) or c[0] == "bol" for c in cands):
@@ -558,7 +572,7 @@ def split_context(n):
                 else:
                     _ctx_from_look(c[3], left, "left")
             items = items[1:]
-    if items:
+    if items and right is None:
         last = strip_groups(items[-1])
         cands = last[1] if last[0] == "alt" else (last,)
         if all((c[0] == "look" and c[1] == "ahead" and not c[2]) or c[0] in ("eol", "eos") for c in cands):
